@@ -172,5 +172,5 @@ def _pfc_post(A, r):
                equiv(r.values, f[0].result) if f else False)
 
 
-contract(f"{SK}::_BaseWindowForecaster._predict_fixed_cutoff", "C03", cases=["rel", "abs"], inputs=_pfc_inputs,
+contract(f"{SK}::_BaseWindowForecaster._predict_fixed_cutoff", "C03,C12", cases=["rel", "abs"], inputs=_pfc_inputs,
          ensures=[("one-value-per-step-labelled-cutoff-plus-step", _pfc_post)], frame=lambda A: [A.self])
